@@ -43,13 +43,25 @@ func newMetaTrack(p *Prepared, outDir string) *metaTrack {
 		}
 	}
 	t.preRun = map[string][]byte{}
-	if es, err := os.ReadDir(filepath.Join(t.base, ".thruflux_resumedata")); err == nil {
-		for _, e := range es {
-			b, _ := os.ReadFile(filepath.Join(t.base, ".thruflux_resumedata", e.Name()))
-			t.preRun[e.Name()] = b
+	for _, dir := range t.metaDirs() {
+		if es, err := os.ReadDir(dir); err == nil {
+			for _, e := range es {
+				b, _ := os.ReadFile(filepath.Join(dir, e.Name()))
+				t.preRun[filepath.Join(dir, e.Name())] = b
+			}
 		}
 	}
 	return t
+}
+
+// metaDirs: where the receiver looks for resume metadata - its own directory and, in the flat
+// mode, the one a run with a root directory would have used (the loader's fallback).
+func (t *metaTrack) metaDirs() []string {
+	dirs := []string{filepath.Join(t.base, ".thruflux_resumedata")}
+	if t.p.Case.NoRootDir && t.p.M.Root != "" {
+		dirs = append(dirs, filepath.Join(t.base, t.p.M.Root, ".thruflux_resumedata"))
+	}
+	return dirs
 }
 
 func (t *metaTrack) violate(cls, msg string) {
@@ -65,10 +77,12 @@ func (t *metaTrack) violate(cls, msg string) {
 // check evaluates the invariant on the current disk content.
 func (t *metaTrack) check(where string) {
 	t.points++
-	dir := filepath.Join(t.base, ".thruflux_resumedata")
-	es, err := os.ReadDir(dir)
 	seen := map[string]bool{}
-	if err == nil {
+	for _, dir := range t.metaDirs() {
+		es, err := os.ReadDir(dir)
+		if err != nil {
+			continue
+		}
 		for _, e := range es {
 			if !strings.HasSuffix(e.Name(), ".sbxmap") {
 				continue // *.tmp and anything else is ignored by the loader too
@@ -85,7 +99,9 @@ func (t *metaTrack) check(where string) {
 			// still metadata the loader accepts for this file: its claims are judged with its own
 			// chunk size. Only the current identity is tracked for regression / loss, because the
 			// receiver legitimately replaces a version written for another chunk size.
-			current := sc.ChunkSize == t.p.Case.Chunk
+			// (and only in the receiver's own directory: what lies in the fallback directory is
+			// judged for its claims, not tracked as "the" version)
+			current := sc.ChunkSize == t.p.Case.Chunk && dir == t.metaDirs()[0]
 			t.loadable++
 			bm := sc.VerifBitmap()
 			if vlib.F.Replay != "" {
@@ -93,12 +109,12 @@ func (t *metaTrack) check(where string) {
 			}
 			want := t.p.Files[it.RelPath]
 			got, gerr := os.ReadFile(filepath.Join(t.base, filepath.FromSlash(it.RelPath)))
-			if (gerr != nil || int64(len(got)) != it.Size) && t.preRun[e.Name()] != nil {
+			if (gerr != nil || int64(len(got)) != it.Size) && t.preRun[filepath.Join(dir, e.Name())] != nil {
 				// The user removed or shortened the output file after the earlier run and this
 				// receiver has not touched either file yet: not a state the receiver produced. It
 				// becomes the receiver's as soon as it rewrites the metadata or brings the output
 				// file (back) to its full length, because from then on a later run would adopt it.
-				if cur, _ := os.ReadFile(filepath.Join(dir, e.Name())); bytes.Equal(cur, t.preRun[e.Name()]) {
+				if cur, _ := os.ReadFile(filepath.Join(dir, e.Name())); bytes.Equal(cur, t.preRun[filepath.Join(dir, e.Name())]) {
 					continue
 				}
 			}
@@ -134,9 +150,7 @@ func (t *metaTrack) check(where string) {
 	for id := range t.last {
 		if !seen[id] {
 			// a readable version existed before; now there is none
-			if _, err := os.Stat(filepath.Join(dir, id+".sbxmap")); err == nil || true {
-				t.violate("metadata-lost", fmt.Sprintf("at %s: a readable metadata version of %s existed earlier, now none is readable (an interrupted update destroyed the previous version)", where, t.byID[id].RelPath))
-			}
+			t.violate("metadata-lost", fmt.Sprintf("at %s: a readable metadata version of %s existed earlier, now none is readable (an interrupted update destroyed the previous version)", where, t.byID[id].RelPath))
 		}
 	}
 }
@@ -240,7 +254,11 @@ func modeC05() {
 		}
 		// the user deleted or shortened the output files after the interrupted run; the hidden
 		// metadata stayed behind
-		for _, pre := range []string{"partial!nodata", "holes!short", "complete!nodata"} {
+		pres := []string{"partial!nodata", "holes!short", "partial!nodata!rootedmeta"}
+		if thorough {
+			pres = append(pres, "complete!nodata", "partial!rootedmeta")
+		}
+		for _, pre := range pres {
 			if s == 2 && pre != "partial!nodata" {
 				continue
 			}
